@@ -22,7 +22,8 @@ PROP = "C15"
 RULE = ("cases: plog models (boolean and small integer leaves, explicit and generated ids) through solve(objectives, solver=...) with "
         "include_virtual_variables on/off, and configurators through select(*prios, solver=..., only_leafs on/off); objectives over leaf and "
         "helper ids incl. unknown ids; injected faults: None for some objectives, ValueError/RuntimeError/custom exception, generator result. "
-        "non-trivial: >=2 columns with different objective entries and an optimum that is not all-zero; distinct by digest of (recipe, objectives, flags)")
+        "non-trivial: >=2 columns with different objective entries and an optimum that is not all-zero; distinct by digest of (recipe, objectives, flags)"
+        ' Also: configurator rows with coefficients beyond 32 bits.')
 BUDGET = {"quick": (12, 260, 90), "thorough": (16, 2500, 1200)}
 MANDATORY = ["judged:solve:polyhedron-is-asserted-model", "judged:solve:objective-alignment", "judged:solve:reported-dict", "judged:solve:optimal",
              "judged:solve:satisfies-model(solver-safe)", "judged:solve:none->{}", "judged:select:polyhedron-is-own", "judged:select:reported-dict",
